@@ -24,6 +24,7 @@ pub const BASH_EXCLUDED_VARIABLES: &[&str] = &[
     "__SCRUT_DECLARE_VARS_CMD",
     "__SCRUT_EXIT_CODE",
     "__SCRUT_INITIAL_ENV",
+    "__SCRUT_INITIAL_PATH",
     "__SCRUT_NAME",
     "__SCRUT_TEMP_STATE_PATH",
     "__SCRUT_XV",
